@@ -12,11 +12,13 @@ ID = 'C20'
 LEVEL = 'exploration'
 RULE = ('A case = initial values of 1-2 rows (int, nullable int, str, Decimal, bool, reference, float, volatile, optimistic=False '
         'attributes) + 2-3 session scripts (fetch by E[pk]/get/select/get_for_update/select().for_update(), attribute reads, '
-        'to_dict, get(**kw)/select filters, assignments, set(**kw), read-modify-write, dependent writes, delete, flush; end = '
-        'commit/rollback/exception) + a schedule (one choice among runnable actors per operation) + a layout (one Database per '
+        'to_dict, get(**kw)/select filters, assignments, set(**kw), read-modify-write, dependent writes, delete, flush, commit() in '
+        'the middle of the db_session, leaving and re-entering db_session on the same Database; end = commit/rollback/exception; '
+        'three generators: free scripts, scripts built around one contended attribute, and two-transaction patterns (same '
+        'updated/compared columns with NULL vs non-NULL read values; for_update lock, mid-session commit, then read and write)) + a schedule (one choice among runnable actors per operation) + a layout (one Database per '
         'actor = lock conflicts fail with "database is locked"; or one shared Database = lock conflicts wait on the provider '
         'lock). Oracle per history: (1) the committed database changes only in the step of a successful commit; (2) for every '
-        'session that committed an UPDATE of a row it had not locked: the row still existed and every checked attribute it had '
+        'transaction that committed an UPDATE of a row not locked in that transaction: the row still existed and every checked attribute it had '
         'read from it before sending the UPDATE and never overwrote had, just before the commit, the value it read; (3) a flush '
         'or commit that fails while such an attribute is stale fails with OptimisticCheckError/UnrepeatableReadError or a lock '
         'error. Non-trivial = some session read an attribute of a row it also wrote, and another session committed a write to '
@@ -26,7 +28,7 @@ ASSUMPTIONS = ['SQLite only (file database, timeout=0); the PostgreSQL half of t
                'a plain sqlite3 connection in autocommit mode sees exactly the committed state',
                'which row an UPDATE addresses is read from the statement log (sqlite3 connection factory), not from Pony']
 SHARDS = {'quick': 4, 'thorough': 16}
-MIN_EVALS = {'quick': 1200, 'thorough': 20000}
+MIN_EVALS = {'quick': 3000, 'thorough': 20000}
 CLASS_FLOORS = {'conflict': 0.10, 'stale_detected': 0.04, 'commit_update': 0.40}
 EXCLUSIONS = {}
 
@@ -37,7 +39,7 @@ MANIFEST = {
             'an unlocked row never coexists with a changed value of an attribute the session had read and not overwritten '
             '(float, optimistic=False and volatile attributes exempt); conflicting flushes fail with '
             'OptimisticCheckError/UnrepeatableReadError or a lock error.',
-    'note': 'SQLite only (no PostgreSQL server); bounded scripts (<= 3 sessions x 7 operations, 2 rows); trusts the scheduler, '
+    'note': 'SQLite only (no PostgreSQL server); bounded scripts (<= 3 actors x 7 operations, 2 rows, several transactions per actor); trusts the scheduler, '
             'the statement log and sqlite3 autocommit reads; cannot establish absence of lost updates beyond the explored histories.',
     'technique': 'property-based testing of generated schedules with a deterministic one-runnable-thread scheduler and a raw-SQL observer',
 }
@@ -60,9 +62,12 @@ def _strategies():
         'bump': st.tuples(st.just('bump'), obj, st.integers(0, 3)),
         'copy': st.tuples(st.just('copy'), obj, st.integers(0, 3), st.integers(0, 3)),
         'flush': st.tuples(st.just('flush')),
+        'commit': st.tuples(st.just('commit')),
+        'restart': st.tuples(st.just('restart')),
         'del': st.tuples(st.just('del'), obj),
     }
-    weights = dict(get=4, read=12, dict=2, getkw=2, selkw=2, write=10, set=2, bump=2, copy=2, flush=3, **{'del': 1})
+    weights = dict(get=4, read=12, dict=2, getkw=2, selkw=2, write=10, set=2, bump=2, copy=2, flush=3, commit=2, restart=1,
+                   **{'del': 1})
     names = []
     for k in sorted(weights):
         names.extend([k] * weights[k])
@@ -153,6 +158,61 @@ def race_strategy():
     return build()
 
 
+def special_strategy():
+    """two patterns that need more than one transaction per session:
+    'nullcache': a session updates column b of one row after reading a NULL (resp. non-NULL) nullable attribute x of it, commits
+       (or leaves and re-enters db_session), then does the same on another row whose x is non-NULL (resp. NULL) while another
+       session flips that x to NULL (resp. a value) in between -- same updated columns, same compared columns, different
+       NULL-ness, so a cached UPDATE text must not be reused blindly;
+    'lockcommit': a session locks a row with for_update, commits in the middle of the db_session (the lock is gone), reads an
+       attribute, another session changes it, the first session writes another attribute and commits"""
+    st, c, obj, attr, op, session, end, row, layout, schedule = _strategies()
+    names = c20_lib.NAMES
+
+    @st.composite
+    def build(draw):
+        kind = draw(st.sampled_from(['nullcache', 'nullcache', 'lockcommit']))
+        lay = draw(layout)
+        rows = [draw(row), draw(row)]
+        sep = [draw(st.sampled_from(['commit', 'commit', 'restart']))]
+        if kind == 'nullcache':
+            x = draw(st.sampled_from([names.index('m'), names.index('g')]))
+            b = draw(st.sampled_from([names.index(a) for a in ('n', 'k', 's', 'd', 'b')]))
+            null_first = draw(st.sampled_from([True, True, False]))
+            p, t = draw(st.sampled_from([(1, 0), (0, 1)]))
+            nonnull = draw(st.integers(1, 2))
+            rows[p][x] = 0 if null_first else nonnull         # value choice 0 of a nullable attribute is NULL
+            rows[t][x] = nonnull if null_first else 0
+            flip = ['write', t, x, 0 if null_first else draw(st.integers(1, 2))]
+            primer = [['read', p, x], ['write', p, b, draw(c)]]
+            second = [['read', t, x], ['write', t, b, draw(c)]]
+            if lay == 'shared' and draw(st.booleans()):
+                # the first update is made by another session of the same Database
+                actors = [{'session': {}, 'ops': second, 'end': 'commit'},
+                          {'session': {}, 'ops': [flip], 'end': 'commit'},
+                          {'session': {}, 'ops': primer, 'end': 'commit'}]
+                sch = [2] * 3 + [0] + [1] * 2 + [0] * 2
+            else:
+                actors = [{'session': {}, 'ops': primer + [sep] + second, 'end': 'commit'},
+                          {'session': {}, 'ops': [flip], 'end': 'commit'}]
+                sch = [0] * 4 + [1] * 2 + [0] * 2
+        else:
+            o = draw(st.integers(0, 1))
+            a = draw(st.sampled_from([names.index(n_) for n_ in ('n', 'k', 'm', 's', 'd', 'b', 'g')]))
+            b = draw(st.sampled_from([names.index(n_) for n_ in ('n', 'k', 's', 'd', 'b') if names.index(n_) != a]))
+            how = draw(st.sampled_from([4, 5, 6]))            # get_for_update / select().for_update() / nowait
+            mid = ['commit']                                    # the session itself must go on (same cache)
+            actors = [{'session': draw(session), 'ops': [['get', o, how]] + draw(st.lists(op, max_size=1)) + [mid, ['read', o, a],
+                                                         ['write', o, b, draw(c)]], 'end': 'commit'},
+                      {'session': {}, 'ops': [['write', o, a, draw(c)]], 'end': 'commit'}]
+            k = len(actors[0]['ops'])
+            sch = [0] * (k - 1) + [1] * 2 + [0] * 2
+        for pos, val in draw(st.lists(st.tuples(st.integers(0, len(sch) - 1), st.integers(0, 2)), max_size=2)):
+            sch[pos] = val
+        return {'layout': lay, 'rows': rows, 'actors': actors, 'schedule': sch}
+    return build()
+
+
 def run(ctx):
     env = c20_lib.Env(ctx.workdir)
 
@@ -169,9 +229,11 @@ def run(ctx):
         if verdict.message is not None:
             ctx.fail(case, verdict.message)
     try:
-        ctx.run_test(t, {'case': case_strategy()}, max_examples=ctx.scale(200, 900), name='schedules')
+        ctx.run_test(t, {'case': case_strategy()}, max_examples=ctx.scale(400, 800), name='schedules')
         if ctx.violation is None:
-            ctx.run_test(t, {'case': race_strategy()}, max_examples=ctx.scale(250, 1100), name='races')
+            ctx.run_test(t, {'case': race_strategy()}, max_examples=ctx.scale(450, 900), name='races')
+        if ctx.violation is None:
+            ctx.run_test(t, {'case': special_strategy()}, max_examples=ctx.scale(200, 400), name='special')
     finally:
         env.close()
 
